@@ -21,6 +21,7 @@ type Obligation struct {
 	Scaffold  bool
 	Candidate int // >0: houdini candidate id (loop-local)
 	CandLoop  int
+	Skip      bool // not claimed by the current unit: assumed, not solved
 	Cover     bool // vacuity cover: expected to be refutable (sat)
 	idx       int
 }
